@@ -101,6 +101,9 @@ pub enum Op {
         belief: Option<Decimal>,
         max_spread: Option<Decimal>,
         to: Option<AddrRef>,
+        /// allowance-based entry: the sender spends this account's tokens (cw20 SendFrom)
+        #[serde(default, skip_serializing_if = "Option::is_none")]
+        from: Option<AddrRef>,
     },
     RouteExec {
         hops: Vec<Hop>,
